@@ -933,6 +933,7 @@ def _c19_case(acc, case):
         if _tok_kind(cur["name"]) != "benign":
             alts.append(dict(cur, name="t"))
         for alt in alts:
+            alt["pre"] = "absent"           # nothing in the way: the most sensitive setting
             if _c19_label(alt)[0] != "benign" and _c19_eval(alt)[0]:
                 cur, progress = alt, True
                 break
@@ -949,7 +950,8 @@ def _c19_cases(tier):
             for dirs in C19_DIRS:
                 hostile_name = _tok_kind(name) != "benign"
                 hostile_dirs = any(_tok_kind(t) != "benign" for t in dirs)
-                if tier == "quick" and hostile_name and hostile_dirs and not (name == ".." and dirs in ([".."], ["x", "..", "..", ".."])):
+                if tier == "quick" and hostile_name and hostile_dirs and not (
+                        name in (".", "") or (name in ("..", "../../../../..") and dirs in ([".."], ["x", "..", "..", ".."], ["a/../../b"]))):
                     continue
                 for pre in ("absent", "shorter") + (("same",) if tier != "quick" else ()):
                     for cwdt in (False, True):
